@@ -454,6 +454,27 @@ def gen(ctx):
         if rng.random() < 0.1 and ranges:
             ranges.append([list(ranges[0][0]), list(ranges[0][1])])    # duplicate range
         yield {'type': typ, 'ranges': ranges, 'rs': rng.randrange(1 << 30)}
+    # generated malformed class, tried AFTER the valid cases of this process: a word that begins
+    # like a month name but is not one ('Septic', 'Decent', 'Augur') - whatever was parsed before
+    for k in range(30 if quick else 600):
+        full = rng.choice(MONTHS[1:])
+        word = full[:rng.choice([3, 4, 4, 5])] + rng.choice(['x', 'ic', 'zz', 'q', 'ent', 'uary'])
+        if full.lower().startswith(word.lower()) or any(
+                m.lower().startswith(word.lower()) for m in MONTHS[1:]):
+            continue
+        word = rng.choice([word, word.lower(), word.upper()])
+        d = rng.randrange(1, 29)
+        form = rng.randrange(4)
+        if form == 0:
+            yield {'type': 'malformed', 'of': 'date', 'spec': f"{word} {d}"}
+        elif form == 1:
+            yield {'type': 'malformed', 'of': 'date', 'spec': f"Jan 1 - {d}. {word}"}
+        elif form == 2:
+            yield {'type': 'malformed', 'of': 'datetime',
+                   'spec': f"2030 {word} {d} 10:00 / 2031 mar 1 8:00"}
+        else:
+            yield {'type': 'malformed', 'of': 'datetime',
+                   'spec': f"{d} {word} 2030 10:00 / 2031-03-01T08:00"}
     if ctx.shard == 0:
         # all days of the leap year against a few fixed intervals
         for ranges in ([[[12, 10], [1, 15]]], [[[2, 29], [2, 29]]], [[[3, 1], [2, 28]]],
